@@ -284,6 +284,12 @@ class SchemaValidator:
                     path, field.arguments, resolver,
                 )
 
+            if field.subscription_resolver and self.enable_resolver_validation:
+                # Called like any resolver, to get the source event stream.
+                self._validate_resolver_arguments(
+                    path, field.arguments, field.subscription_resolver,
+                )
+
             fieldnames.add(field.name)
 
     def _validate_resolver_arguments(
